@@ -4,7 +4,7 @@ with `seed`.  Does not decide totals, non-negativity, the Poisson law or termina
 import ast
 
 from .. import cxfe, cxa, idx as idxmod, vlay, pyfe
-from ..cxfe import kids, strip, text, walk, name_of, call_parts, uname
+from ..cxfe import kids, strip, text, walk, name_of, call_parts, uname, subscript
 from ..core import AnalysisError
 
 INITS = ("engineexport_initialize_grid", "engineexport_initialize_graph")
@@ -222,6 +222,66 @@ def rule_gsd(ctx, tu):
     ctx.need(n >= 1, R, "no correction update of mesh_x_sto found")
     ctx.floor(R, 1)
     ctx.floor("C14.FLOOR", 2)
+    # C14.COUNT: the correction stops when its counter reaches |drawn total - target total|; the counter therefore has to move
+    # exactly when one molecule is really removed / added: every counter increment stands under the same conditions as one
+    # unit update of mesh_x_sto, and every unit update is counted
+    R = "C14.COUNT"
+    unit = []       # (store, facts) of mesh_x_sto +-1
+    for s2, facts in recs:
+        one = s2.op in ("++", "--") or (s2.op in ("+=", "-=") and cxa.const_int(s2.rhs) == 1)
+        if one:
+            unit.append((s2, facts))
+    cnt = []
+
+    def on_atom2(node, facts):
+        for x in walk(node):
+            for s2 in cxa.stores_of_node(x):
+                if s2.base and s2.base[0] == "var" and subscript(s2.target) is None and \
+                        (s2.op == "++" or (s2.op == "+=" and cxa.const_int(s2.rhs) == 1)):
+                    cnt.append((s2, frozenset(facts)))
+    cxa.canon_facts(f.body, on_atom=on_atom2)
+    # the counter: a local incremented by one under the correction's conditions and compared with the amount to correct
+    loopvars = set()
+    for lp in walk(f.body):
+        if lp.get("kind") == "ForStmt":
+            inc = cxfe.raw_kids(lp)[3]
+            if inc:
+                for s2 in cxa.stores_of_node(strip(inc)):
+                    if s2.base:
+                        loopvars.add(s2.base[1])
+    cnt = [(s2, fc) for s2, fc in cnt if s2.base[1] not in loopvars]
+    ctx.need(cnt, R, "GenerateStochasticDistribution: the correction counter is not found")
+    # "the same conditions" = the same chain of enclosing if-branches (flow facts would lose `x > 0` at the decrement of x)
+    chain = {}
+
+    def rec_(n, ch):
+        chain[id(n)] = ch
+        if n.get("kind") == "IfStmt":
+            p_ = cxfe.raw_kids(n)
+            rec_(p_[0], ch)
+            for bi, b in enumerate(p_[1:3]):
+                if b:
+                    rec_(b, ch + ((cxa.canon(p_[0]), bi == 0),))
+            return
+        for c in kids(n):
+            rec_(c, ch)
+    rec_(f.body, ())
+    strip_facts = None
+    unit = [(s2, chain.get(id(s2.node), ())) for s2, _ in unit]
+    cnt = [(s2, chain.get(id(s2.node), ())) for s2, _ in cnt]
+    strip_facts = lambda fc: frozenset(fc)
+    ufacts = [strip_facts(fc) for _, fc in unit]
+    for s2, fc in cnt:
+        ctx.check(strip_facts(fc) in ufacts, R, s2.node, f.qual, text(s2.node)[:60] + " under " + "; ".join(sorted(
+            ("" if p_ else "!") + "(" + t + ")" for t, p_ in strip_facts(fc)))[:120], "counts one real unit update of the drawn state",
+                  "the correction counter advances on a path where no molecule is removed / added (its conditions differ from "
+                  "those of every +-1 update): the loop ends early and the t = 0 total is not floor(real total)")
+    cfacts_ = [strip_facts(fc) for _, fc in cnt]
+    for s2, fc in unit:
+        ctx.check(strip_facts(fc) in cfacts_, R, s2.node, f.qual, text(s2.node)[:60] + " is counted", "each unit update advances "
+                  "the counter", "a +-1 update of the drawn state is not counted: more molecules are moved than the difference "
+                  "of the totals")
+    ctx.floor(R, 4)
 
 
 def run(ctx):
@@ -233,6 +293,11 @@ def run(ctx):
     rule_dispatch(ctx, tu)
     rule_modes(ctx, tu, ctx.py)
     rule_seed(ctx, tu)
+    # ... and the seed those generators receive is the script's: given seeds (0 included) are kept, only a missing seed is drawn
+    from . import c08
+    c08.rule_py_seed(ctx, ctx.py, "C14.SEED-PY")
+    from .. import truth
+    truth.rule(ctx, "C14.TRUTH", ctx.py, ["rdscript"], floor=5)
     ctx.assume("totals, non-negativity, 'zero stays zero', the Poisson law and termination of the redistribution loop "
                "are value-level and not decided (the loop is named by C10.LOOPS)")
     ctx.assume("the Python side hands state and chemostat map over species-major (C13.INDEX)")
